@@ -149,7 +149,11 @@ V6May(t, enc) == V6Of(t, enc, AddrMay, ZoneMay)
 
 -----------------------------------------------------------------------------
 (* numbers <-> big-endian ("network order") byte sequences *)
-ByteAt(w, k) ==            \* byte k of the number w, k = 0 the least significant
+ByteAt(w, k) ==            \* byte k of the number w, k = 0 the least significant; a byte spans at most two limbs (WLB >= 8)
+    LET i == (8 * k) \div WLB + 1
+        r == (8 * k) % WLB
+    IN ((WLimb(w, i) \div 2 ^ r) + WLimb(w, i + 1) * 2 ^ (WLB - r)) % 256
+ByteAtBitwise(w, k) ==     \* the same, bit by bit (ValueCodecsMC checks that the two agree)
     LET s[j \in 0..8] == IF j = 0 THEN 0 ELSE s[j - 1] + WBit(w, 8 * k + j - 1) * 2 ^ (j - 1) IN s[8]
 FitsBytes(w, n) == WLe(w, WMaxBits(8 * n))
 BE(w, n) == [i \in 1..n |-> ByteAt(w, n - i)]
@@ -181,15 +185,17 @@ UuidInit(d, pre, rc, v) ==
     /\ uu' = [uu EXCEPT ![d] = v] /\ seen' = seen \cup {v}
     /\ UNCHANGED <<big, buf, mem>>
 
-(* aws_uuid_init_from_str(text): v = the object's bytes afterwards (unconstrained after a refusal) *)
-UuidFromStr(d, t, rc, err, v) ==
+(* aws_uuid_init_from_str(text): which (return code, error, bytes of the object afterwards) a text admits *)
+FromStrAdmits(t, rc, err, v) ==
+    IF Len(t) < UuidTextLen THEN rc # 0 /\ err = ErrShortText
+    ELSE LET h == SubSeq(t, 1, UuidTextLen) IN
+         IF StrictLower(t) THEN rc = 0 /\ v = Parse(t)               \* what aws_uuid_to_str writes is read back
+         ELSE IF Strict(h) THEN rc = 0 => v = Parse(h)               \* upper case, text longer than 36: open, but never a wrong value
+         ELSE IF Hopeless(h) THEN rc # 0 /\ err = ErrMalformed
+         ELSE TRUE
+UuidFromStr(d, t, rc, err, v) ==                                     \* v unconstrained after a refusal
     /\ d \in USlots /\ Len(v) = 16
-    /\ IF Len(t) < UuidTextLen THEN rc # 0 /\ err = ErrShortText
-       ELSE LET h == SubSeq(t, 1, UuidTextLen) IN
-            IF StrictLower(t) THEN rc = 0 /\ v = Parse(t)               \* what aws_uuid_to_str writes is read back
-            ELSE IF Strict(h) THEN rc = 0 => v = Parse(h)               \* upper case, text longer than 36: open, but never a wrong value
-            ELSE IF Hopeless(h) THEN rc # 0 /\ err = ErrMalformed
-            ELSE TRUE
+    /\ FromStrAdmits(t, rc, err, v)
     /\ uu' = [uu EXCEPT ![d] = v]
     /\ UNCHANGED <<big, seen, buf, mem>>
 
@@ -258,6 +264,7 @@ UuidLaws(U) ==
     /\ \A b \in U : StrictLower(UuidText(b)) /\ Parse(UuidText(b)) = b /\ ~Hopeless(UuidText(b))
     /\ \A b, c \in U : (UuidText(b) = UuidText(c)) => b = c
 NumLaws(W) ==
+    /\ \A w \in W : \A k \in 0..8 : ByteAt(w, k) = ByteAtBitwise(w, k)
     /\ \A w \in W : \A n \in {2, 4, 8} : FitsBytes(w, n) => (\A v \in W : (FitsBytes(v, n) /\ BE(v, n) = BE(w, n)) => WEq(v, w))
     /\ \A w \in W : FitsBytes(w, 4) => SubSeq(BE(w, 8), 5, 8) = BE(w, 4) /\ SubSeq(BE(w, 8), 1, 4) = Zeros(4)
     /\ \A w \in W : FitsBytes(w, 2) => SubSeq(BE(w, 4), 3, 4) = BE(w, 2)
